@@ -12,7 +12,7 @@ from typing import Dict, List, Optional, Set, Tuple
 from ..absint import Client, Ctx, Interp
 from ..model import AnalysisError, Cls, Func, Program, walk_own
 from ..resolve import Scope, dotted
-from ..util import assigned_value
+from ..util import calls_in, assigned_value
 
 FILES_MOD = "windpyutils.files"
 
@@ -107,6 +107,24 @@ class Family:
                             helper = f
             if helper:
                 break
+        self.reopen_foreign_compare = getattr(self, "reopen_foreign_compare", {})
+        if helper is None:
+            # a method that compares the pid field with something that is *not* os.getpid() (and not None) and calls close/open:
+            # still the re-open helper, but its test is wrong; C18.R2 reports the operand
+            for k in c.repo_mro():
+                for f in k.methods.values():
+                    if f.self_name is None or P.resolve(c, f.name) is not f:
+                        continue
+                    for n in walk_own(f.node):
+                        if isinstance(n, ast.Compare) and len(n.ops) == 1 and isinstance(n.ops[0], (ast.Eq, ast.NotEq, ast.Is, ast.IsNot)):
+                            parts = [n.left, n.comparators[0]]
+                            other = [x for x in parts if dotted(x) != (f.self_name, pid)]
+                            if len(other) == 1 and not (isinstance(other[0], ast.Constant) and other[0].value is None) \
+                                    and any(isinstance(cl.func, ast.Attribute) and cl.func.attr in ("open", "close") for cl in calls_in(f.node)):
+                                helper = f
+                                self.reopen_foreign_compare[c.qual] = (n, other[0])
+                if helper:
+                    break
         if helper is None:
             raise AnalysisError(f"{c.short}: no method compares self.{pid} with os.getpid() (re-open helper vanished)")
         self.reopen[c.qual] = helper
